@@ -5,6 +5,7 @@
 import Driver.C08
 import Driver.C16
 import Driver.C17
+import Driver.C18
 open Lean CR.Drv
 
 def dispatch (prop op : String) (a : Json) : P Json :=
@@ -12,6 +13,7 @@ def dispatch (prop op : String) (a : Json) : P Json :=
   | "C08" => C08.handle op a
   | "C16" => C16.handle op a
   | "C17" => C17.handle op a
+  | "C18" => C18.handle op a
   | _ => throw s!"unknown property {prop}"
 
 def handleLine (line : String) : String :=
